@@ -1030,6 +1030,16 @@ def _warm(_):
     return True
 
 
+def _init_worker():
+    """Workers die with the parent (also when the parent is killed by a timeout)."""
+    try:
+        import ctypes
+        import signal
+        ctypes.CDLL('libc.so.6').prctl(1, signal.SIGKILL)      # PR_SET_PDEATHSIG
+    except Exception:
+        pass
+
+
 def _work(case):
     return case, execute(case)
 
@@ -1040,7 +1050,7 @@ def start_pool():
         try:
             import multiprocessing as mp
             from concurrent.futures import ProcessPoolExecutor
-            ex = ProcessPoolExecutor(max_workers=WORKERS, mp_context=mp.get_context('fork'))
+            ex = ProcessPoolExecutor(max_workers=WORKERS, mp_context=mp.get_context('fork'), initializer=_init_worker)
             warm = [ex.submit(_warm, i) for i in range(WORKERS)]
             _POOL[0] = (ex, warm)
         except Exception:
@@ -1133,7 +1143,7 @@ def run(ctx):
         tm['create'] = round(time.time() - t, 1)
         t = time.time()
         run_cases(ctx, [copy_case(c) for c in CORPUS], 'run_corpus')
-        run_cases(ctx, [gen_case(ctx.rng) for _ in range(ctx.n(1200, 18000))], 'run')
+        run_cases(ctx, [gen_case(ctx.rng) for _ in range(ctx.n(1200, 12000))], 'run')
         tm['run'] = round(time.time() - t, 1)
     finally:
         stop_pool()
